@@ -95,6 +95,7 @@ type c19Plan struct {
 	rawWL    *int
 	rawAL    *int
 	hdrDelta int
+	keepTail bool
 	filler   []byte
 	muts     []string
 }
@@ -166,6 +167,13 @@ func (p *c19Plan) bytes() []byte {
 		if nl > len(stream) {
 			nl = len(stream)
 		}
+		if p.keepTail && nl < len(m) {
+			// the declared message ends early but the bytes behind it are still in the buffer: what the BMP router
+			// hands over when the route monitoring message is longer than the BGP PDU it carries (a BGP session's
+			// recvMsg cuts the buffer at the header length)
+			binary.BigEndian.PutUint16(m[16:], uint16(nl))
+			return m
+		}
 		m = stream[:nl]
 		binary.BigEndian.PutUint16(m[16:], uint16(nl))
 	}
@@ -220,6 +228,7 @@ var c19Mutations = []struct {
 	}},
 	{"hdr", func(t *rapid.T, p *c19Plan) bool {
 		p.hdrDelta = c19Delta(t, "hdr_d")
+		p.keepTail = rapid.Bool().Draw(t, "hdr_keeptail")
 		switch rapid.IntRange(0, 2).Draw(t, "hdr_fill") {
 		case 0:
 			p.filler = make([]byte, 32)
@@ -439,6 +448,12 @@ func c19Class(e *kit.WErr) string {
 
 // c19RefParse runs the reference parser on a complete message.
 func c19RefParse(msg []byte, o kit.WOpts) *kit.WErr {
+	// A message ends where its header says; bytes behind it (keepTail) are not part of it.
+	if len(msg) >= 19 {
+		if l := int(binary.BigEndian.Uint16(msg[16:])); l >= 19 && l < len(msg) {
+			msg = msg[:l]
+		}
+	}
 	typ, body, e := kit.ParseHeader(msg)
 	if e != nil {
 		return e
